@@ -132,7 +132,32 @@ func judge(sc *scen.Scenario, res *scen.Result, runErr error) (string, error) {
 	return "ok", nil
 }
 
+// genEarlyAnswer: the answer to a request reaches the client while the sending goroutine is still inside the send
+// path (held right after its write): the result must still find its caller.
+func genEarlyAnswer(t *rapid.T) (*scen.Scenario, []string) {
+	s := rapidSource{t}
+	sc := scen.NewResumed(s)
+	n := rapid.IntRange(1, 3).Draw(t, "ncallers")
+	callers := scen.Callers(s, n, 1, 1+rapid.IntRange(0, 1000).Draw(t, "base"))
+	held := callers[0].Reqs[0]
+	hold := &scen.HoldSpec{Point: "send.written", Tag: held.Tag, Manual: true, Ms: 400}
+	steps := []scen.Step{{Op: "hold", Hold: hold}, {Op: "call", Calls: callers[:1]}, {Op: "await-requests", N: 1},
+		{Op: "answer", Container: rapid.Bool().Draw(t, "container"), Items: []scen.AnsItem{{Tag: held.Tag, Gzip: rapid.Bool().Draw(t, "gzip")}}},
+		{Op: "sleep", Ms: rapid.IntRange(5, 30).Draw(t, "settle")}, {Op: "release", Hold: hold}}
+	if n > 1 {
+		steps = append(steps, scen.Step{Op: "call", Calls: callers[1:]})
+		steps, _ = scen.AnswerRounds(s, steps, callers[1:], 0)
+	}
+	steps = append(steps, scen.Step{Op: "await-calls"}, scen.Step{Op: "probe"})
+	sc.RPC.Steps = steps
+	sc.GoMaxProcs = rapid.SampledFrom([]int{1, 2, 16}).Draw(t, "gomaxprocs")
+	return sc, []string{"directed:answer-while-sender-in-send-path", "feat:" + held.Kind + ":early", "feat:container"}
+}
+
 func gen(t *rapid.T) (*scen.Scenario, []string) {
+	if rapid.IntRange(0, 4).Draw(t, "family") == 0 {
+		return genEarlyAnswer(t)
+	}
 	s := rapidSource{t}
 	sc := scen.NewResumed(s)
 	ncallers := rapid.IntRange(1, run.Pick(6, 8)).Draw(t, "ncallers")
